@@ -49,7 +49,7 @@ func init() {
 		},
 		Bounds: map[string]string{
 			"quick":    "proto: k<=2 messages of <=3 symbolic bytes, every read partition x EOF placement x 3 buffer capacities x limits 1..5; arbitrary wire <=11 symbolic bytes (all 1..10-byte prefixes, all uint64 sizes) x limit 1..12 x {greedy, byte-wise} reads; json: k<=2 objects from a 6-template grammar with symbolic filler, every partition of streams <=12 bytes; arbitrary json wire <=6 symbolic bytes; body chunker: limit 1..3, every body length 0..3*limit+1, every partition of bodies <=7 bytes",
-			"thorough": "proto: k<=3, sizes<=4, wire<=13; json: k<=3, arbitrary wire<=8, partitions of streams<=16; body: limit 1..4, partitions of bodies<=10",
+			"thorough": "proto: k<=3, sizes<=4, wire<=13; json: k<=3, arbitrary wire<=8, partitions of streams<=13; body: limit 1..4, partitions of bodies<=10",
 		},
 		Assume:  []string{"io.Reader contract as modelled by vfFragReader (never (0,nil) on non-empty p; (n>0, io.EOF) allowed)", "protowire.ConsumeVarint/AppendVarint and io.ReadFull interpreted from source", "append growth = runtime.growslice of go1.23 (size classes)"},
 		Outside: []string{"limit <= 0", "zero-byte non-error reads", "messages longer than the stated sizes (multi-byte prefixes are covered by the arbitrary-wire harness only)"},
@@ -160,7 +160,7 @@ func init() {
 		},
 		Bounds: map[string]string{
 			"quick":    "HTTP client streams of k<=2 messages (proto: <=2 symbolic bytes each; json: 6-template grammar) through the real stream codecs, every read partition and EOF placement of streams <=9 bytes, every truncation offset; HttpBody uploads of every length 0..3*limit+1 for limit 1..3; server streams of 1..2 replies; one gRPC frame per direction",
-			"thorough": "k<=3, partitions of streams <=12 bytes, limit 1..4",
+			"thorough": "k<=3, partitions of streams <=10 bytes, limit 1..4",
 		},
 		Assume:  []string{"recording codec stub; real framing (CodecProto / CodecJSON / codecHTTPBody)", "vfFragReader model of the io.Reader contract", "an empty request body may yield one body-less first message (carrying path/query params) or EOF: unspecified"},
 		Outside: []string{"WebSocket transport (gobwas/ws), gzip, real HTTP/2 flow control", "bidirectional interleaving (no goroutine model): the claim is per direction", "gRPC-web framing and multi-frame gRPC streams through serveGRPC (driver pending)"},
